@@ -288,22 +288,25 @@ def r3_siblings(rep, ctx):
 def r4_parts(rep, ctx):
     m = ctx.model
     fn = m.method("FractionScalar", "ConvertFractionValue")
-    res = Resolver(m, fn, flow=False)
-    convs = [c for c in own_nodes(fn.node) if isinstance(c, ast.Call) and isinstance(c.func, ast.Attribute) and c.func.attr in ("ConvertScalarValue", "Convert")]
+    res = Resolver(m, fn)
+    P = {p_: ("param", i_, p_) for i_, p_ in enumerate(fn.params)}
+    convs = sorted((c for c in own_nodes(fn.node) if isinstance(c, ast.Call) and isinstance(c.func, ast.Attribute) and c.func.attr in ("ConvertScalarValue", "Convert")), key=lambda c: (c.lineno, c.col_offset))
     parts = []
+    src_ok = bool(convs)
     for c in convs:
-        v = show(res.term(c.args[0]), 200) if c.args else ""
-        to = ast.unparse(c.args[1]) if len(c.args) > 1 else ""
+        vt = res.term(c.args[0]) if c.args else ("const", None)
+        v = show(vt, 200)
+        to = res.term(c.args[1]) if len(c.args) > 1 else None
         parts.append((v, to))
-        rep.check(to == "to_unit", "C18.R4", "ConvertFractionValue:%s" % norm(v), "the part is converted to the requested unit", "a part is converted to %s" % to, node=c, fn=fn)
+        rep.check(to == P["to_unit"], "C18.R4", "ConvertFractionValue:%s" % norm(v), "the part is converted to the requested unit", "a part is converted to %s" % (show(to) if to else None), node=c, fn=fn)
+        # the quantity that converts is built from from_unit
+        recv = res.term(c.func.value)
+        src_ok = src_ok and all(a_[0] == "call" and a_[1] == ("name", "ObtainQuantity") and a_[2] and a_[2][0] == P["from_unit"] for a_ in alternatives(recv))
     separate = len(convs) >= 2 and any("GetNumber" in v for v, _ in parts) and any("numerator" in v for v, _ in parts)
     whole = any("float(" in v for v, _ in parts)
     if not separate and not whole:
         raise AnalysisError("ConvertFractionValue: neither the parts nor the whole amount are converted (idiom changed)")
-    # the source quantity of the conversions is built from from_unit
-    q = [st for st in own_statements(fn.node) if isinstance(st, ast.Assign) and isinstance(st.targets[0], ast.Name) and st.targets[0].id == "convert_to_quantity"]
-    ok = len(q) == 1 and ast.unparse(q[0].value).replace(" ", "").startswith("ObtainQuantity(from_unit,")
-    rep.check(ok, "C18.R4", "ConvertFractionValue:source-unit", "the parts are converted from `from_unit`", "the conversion quantity is not built from from_unit", fn=fn)
+    rep.check(src_ok, "C18.R4", "ConvertFractionValue:source-unit", "the parts are converted from `from_unit`", "the conversion quantity is not built from from_unit", fn=fn)
     if separate:
         from ..convmodel import ConvModel
         cm = ConvModel(m)
